@@ -387,6 +387,13 @@ class Ctx:
         self.tunnel_from = 0           # tunnels callable: scope.tunnels[tunnel_from:]
         self.targets = []              # forward divert targets
         self.depth = 1
+        self.noturns = False           # TURNS_SINCE not allowed (position the compiler does not scan)
+
+    def copy(self):
+        c = Ctx.__new__(Ctx)
+        c.__dict__.update(self.__dict__)
+        c.ints, c.strs, c.bools = list(self.ints), list(self.strs), list(self.bools)
+        return c
 
 
 # --------------------------------------------------------------------------
@@ -476,8 +483,9 @@ class Gen:
         return t
 
     def str_lit(self):
-        if self.f["hostile"] and self.p(0.4):
-            return '"' + self.pick(HOSTILE_STR_LITS) + '"'
+        # ASCII only: the compiler slices expressions by char index, so a non-ASCII literal followed by
+        # more tokens is mis-tokenised (or panics).  Hostile literals are only emitted as the sole
+        # right-hand side of VAR / assignment lines.
         return '"' + self.pick(STR_LITS) + '"'
 
     # ---- expressions -----------------------------------------------------
@@ -513,7 +521,7 @@ class Gen:
                 opts.append((1, "count"))
             if ctx.labels:
                 opts.append((0.7, "label"))
-            if self.f["turns"] and ctx.scope.visited_names:
+            if self.f["turns"] and ctx.scope.visited_names and not ctx.noturns:
                 opts.append((0.5, "turns"))
             if self.f["rand"]:
                 opts.append((1.5, "random"))
@@ -620,6 +628,14 @@ class Gen:
         if k == "fn":
             return self.call(self.pick(fns), ctx, depth + 1)
         raise AssertionError(k)
+
+    def cond(self, ctx):
+        """bool expression used as a condition.  The compiler takes any condition text ending in "()"
+        for a call of a parameterless function named by the *whole* text, so never end with "()"."""
+        c = self.bool_expr(ctx)
+        if c.endswith("()"):
+            c = "(" + c + ")"
+        return c
 
     def str_expr(self, ctx, depth=0, plain=False):
         opts = [(3, "lit")]
@@ -769,7 +785,7 @@ class Gen:
         if k == "fn":
             return "{" + self.call(self.pick(pf), ctx, 1) + "}"
         if k == "cond":
-            c = self.bool_expr(ctx)
+            c = self.cond(ctx)
             if self.p(0.5):
                 return "{" + c + ": " + self.alt_text() + "}"
             return "{" + c + ": " + self.alt_text() + " | " + self.alt_text() + "}"
@@ -849,7 +865,7 @@ class Gen:
     def small_body(self, ctx, allow_divert=False, ret=None):
         """1-2 simple statements for a conditional / sequence branch."""
         out = []
-        for _ in range(self.rng.randrange(1, 3)):
+        for _ in range(self.wpick([(3, 1), (1, 2)])):
             s = self.assign(ctx) if self.p(0.45 if not self.f["observers"] else 0.6) else None
             out.append(s or self.text(ctx))
         if ret is not None:
@@ -860,9 +876,9 @@ class Gen:
         return out
 
     def cond_block(self, ctx, allow_divert=False, ret=None):
-        n = self.wpick([(5, 1), (2, 2), (1, 3)])
-        branches = [(self.bool_expr(ctx), self.small_body(ctx, allow_divert, ret)) for _ in range(n)]
-        else_body = self.small_body(ctx, allow_divert, ret) if self.p(0.55) else None
+        n = self.wpick([(6, 1), (1.5, 2), (0.5, 3)])
+        branches = [(self.cond(ctx), self.small_body(ctx, allow_divert, ret)) for _ in range(n)]
+        else_body = self.small_body(ctx, allow_divert, ret) if self.p(0.45) else None
         return CondBlock(branches, else_body, style=self.pick(["single", "multi"]))
 
     def seq_block(self, ctx):
@@ -870,7 +886,9 @@ class Gen:
         if self.f["shuffle"]:
             modes.append((4, "shuffle"))
         branches = []
-        for _ in range(self.rng.randrange(2, 4)):
+        ctx = ctx.copy()
+        ctx.noturns = True        # sequence branches are not scanned for TURNS_SINCE targets either
+        for _ in range(self.wpick([(3, 2), (1, 3)])):
             # only plain text and {value} here: the compiler miscompiles inline sequences and
             # inline conditionals nested inside a block sequence (wrong return paths, endless loop)
             b = [self.text(ctx, plain=True)]
@@ -887,20 +905,20 @@ class Gen:
     def simple_stmt(self, ctx):
         """one statement (possibly a block) that neither diverts nor offers choices"""
         obs = self.f["observers"]
-        opts = [(6, "text"), (6 if obs else 2.5, "assign"), (1.2, "cond"), (1, "inlinecond")]
+        opts = [(6, "text"), (6 if obs else 2.5, "assign"), (0.9, "cond"), (1, "inlinecond")]
         if not ctx.pure:
-            opts.append((0.8, "seq"))
+            opts.append((0.5, "seq"))
         if ctx.kind != "function":
             opts.append((0.7, "glue"))
             opts.append((0.4, "tagline"))
             if self.f["tunnels"] and ctx.scope.tunnels[ctx.tunnel_from:]:
-                opts.append((0.9, "tunnel"))
+                opts.append((1.6, "tunnel"))
         if self.callable_fns(ctx) or (ctx.scope.exts and not ctx.pure):
             opts.append((2.5 if (self.f["fn_heavy"] or self.f["externals"]) else 0.8, "call"))
         if self.f["rand"] and not ctx.pure:
             opts.append((0.4, "seed"))
         if self.f["externals"] and ctx.scope.exts and not ctx.pure:
-            opts.append((3, "extform"))
+            opts.append((5, "extform"))
         k = self.wpick(opts)
         if k == "text":
             return [self.text(ctx)]
@@ -911,7 +929,7 @@ class Gen:
             return [self.cond_block(ctx, allow_divert=(ctx.kind == "node"))]
         if k == "inlinecond":
             t = self.text(ctx, plain=True)
-            t.parts = ["{" + self.bool_expr(ctx) + ": " + " ".join(t.parts) + "}"]
+            t.parts = ["{" + self.cond(ctx) + ": " + " ".join(t.parts) + "}"]
             t.tags = []
             return [t]
         if k == "seq":
@@ -951,8 +969,11 @@ class Gen:
             return [Text([w(), "{" + e() + "}", self.word(True) + "."])]
         if k == "string":
             name = self.names.new(INT_WORDS, "t_")
+            nt = ctx.copy()
+            nt.noturns = True
+            decl = Tilde('temp ' + name + ' = "{' + self.call(self.pick(ctx.scope.exts), nt, 2) + '}"')
             ctx.strs.append(name)
-            return [Tilde('temp ' + name + ' = "{' + e() + '}"'), Text([w(), "{" + name + "}"])]
+            return [decl, Text([w(), "{" + name + "}"])]
         if k == "cond":
             return [Text([w(), "{" + e() + " " + self.pick([">", "==", "<"]) + " " + str(self.rng.randrange(0, 3)) + ": yes | no}"])]
         if k == "before_end":
@@ -989,11 +1010,11 @@ class Gen:
         if self.p(0.22):
             c.label = self.names.new(LABEL_WORDS)
         if self.p(0.3):
-            cc = self.bool_expr(ctx) if not self.p(0.15) else "CHOICE_COUNT() < %d" % self.rng.randrange(1, 4)
+            cc = self.cond(ctx) if not self.p(0.15) else "CHOICE_COUNT() < %d" % self.rng.randrange(1, 4)
             if "}" not in cc and "{" not in cc:
                 c.conds.append(cc)
             if self.p(0.15):
-                c.conds.append(self.bool_expr(ctx))
+                c.conds.append(self.cond(ctx))
         form = self.wpick([(4, "plain"), (3, "mid"), (1.5, "only"), (1, "start")])
         if form == "plain":
             c.start = self.choice_words(1, 4)
@@ -1006,30 +1027,30 @@ class Gen:
         if self.p(0.2) and form in ("plain", "mid"):
             # inline expression inside choice text
             piece = None
+            nt = ctx.copy()
+            nt.noturns = True     # TURNS_SINCE inside choice text leaves its target without turn counting
             if ctx.scope.exts:
-                piece = "{" + self.call(self.pick(ctx.scope.exts), ctx, 2) + "}"
+                piece = "{" + self.call(self.pick(ctx.scope.exts), nt, 2) + "}"
             elif ctx.ints:
                 piece = "{" + self.pick(ctx.ints) + "}"
             if piece:
                 c.start += " " + piece
         if self.p(0.25):
             c.tags = [self.tag()]
-        sub = Ctx.__new__(Ctx)
-        sub.__dict__.update(ctx.__dict__)
-        sub.ints, sub.strs, sub.bools = list(ctx.ints), list(ctx.strs), list(ctx.bools)
-        sub.labels = ctx.labels   # shared on purpose: labels stay readable after the group
+        sub = ctx.copy()          # labels list stays shared on purpose: readable after the group
         sub.depth = level + 1
         body = []
-        n = self.wpick([(1, 0), (4, 1), (2, 2)])
+        n = self.wpick([(3, 0), (5, 1), (0.7, 2)])
         for _ in range(n):
             body += self.simple_stmt(sub)
-        if level == 1 and self.p(0.22):
+        if level == 1 and self.p(0.15):
             body.append(self.choice_group(sub, 2, can_divert=False))
             body += [self.text(sub)]
         if can_divert and ctx.targets and self.p(0.4):
             t = self.pick(ctx.targets)
-            if not c.tags and not body and self.p(0.5):
+            if not c.tags and self.p(0.3):
                 c.divert = t      # "* text -> target"
+                body = []
             else:
                 body.append(Divert(t))
         if c.label:
@@ -1040,7 +1061,7 @@ class Gen:
         return c
 
     def choice_group(self, ctx, level, can_divert=True):
-        n = self.rng.randrange(2, 5) if level == 1 else 2
+        n = self.wpick([(5, 2), (3, 3), (0.5, 4)]) if level == 1 else 2
         choices = [self.choice(ctx, level, can_divert) for _ in range(n)]
         # safety: the group must never run dry
         if ctx.revisit:
@@ -1231,10 +1252,10 @@ class Gen:
         for i, name in enumerate(names):
             ctx = Ctx(scope, "tunnel", revisit=True)
             ctx.tunnel_from = i + 1
-            body = self.stmts(ctx, 1, 2)
-            if self.p(0.45):
+            body = self.stmts(ctx, 1, 1)
+            if self.p(0.35):
                 body.append(self.choice_group(ctx, 1, can_divert=False))
-                if self.p(0.5):
+                if self.p(0.3):
                     body += self.stmts(ctx, 1, 1)
             body.append(TunnelReturn())
             knots.append(Knot(name, body, kind="tunnel"))
@@ -1265,7 +1286,7 @@ class Gen:
         plan = []
         for _ in range(n_knots):
             k = self.names.new(KNOT_WORDS)
-            st = [self.names.new(STITCH_WORDS) for _ in range(self.wpick([(5, 0), (3, 1), (1.5, 2)]))]
+            st = [self.names.new(STITCH_WORDS) for _ in range(self.wpick([(7, 0), (2.5, 1), (0.4, 2)]))]
             plan.append((k, st))
             scope.nodes.append(k)
             for s in st:
@@ -1325,13 +1346,13 @@ class Gen:
                 ctx.bools.append(tn)
                 ctx.wbools.append(tn)
         body.append(self.text(ctx))
-        body += self.stmts(ctx, 1, 1 + self.size // 2)
-        n_groups = self.wpick([(2, 0), (5, 1), (1.5, 2)])
+        body += self.stmts(ctx, 0, 1 + self.size // 4)
+        n_groups = self.wpick([(2.5, 0), (6, 1), (0.4 if self.size >= 3 else 0, 2)])
         for _ in range(n_groups):
-            if self.f["threads"] and self.p(0.2):
+            if self.f["threads"] and self.p(0.12):
                 body.append(ThreadCall(self.make_thread(scope, ctx)))
             body.append(self.choice_group(ctx, 1, can_divert=True))
-            if self.p(0.5):
+            if self.p(0.3):
                 body += self.stmts(ctx, 1, 1)
         body += self.exit_stmts(ctx, backs)
         return body
@@ -1463,20 +1484,28 @@ class Gen:
         main = self.build_scope(scope, n_knots)
         self.external_fallbacks(scope)
         fb_knots = self.prog.knots
+        # drop tunnels nobody calls (repeat: a tunnel may only be called by a dropped tunnel)
+        while True:
+            text = "\n".join(l for k in main + tunnel_knots + fn_knots for l in k.render())
+            unused = [k for k in tunnel_knots if ("-> " + k.name + " ->") not in text]
+            if not unused:
+                break
+            tunnel_knots = [k for k in tunnel_knots if k not in unused]
         self.prog.knots = fn_knots_before + main + tunnel_knots + fn_knots + fb_knots
         return main
 
     def build(self):
         f, size = self.f, self.size
-        n_knots = {1: 2, 2: 3, 3: 4, 4: 6, 5: 8}[size] + (1 if self.p(0.3) else 0)
+        n_knots = {1: 1, 2: 1, 3: 2, 4: 3, 5: 5}[size] + (1 if self.p(0.5 if size == 2 else 0.3) else 0)
         if f["flows"]:
-            nflows = self.rng.randrange(2, 3 + (size + 1) // 2)
+            nflows = 2 + (self.rng.randrange(0, 2) if size >= 3 else 0) + (1 if size >= 5 else 0)
+            per_flow = {1: 1, 2: 1, 3: 1, 4: 1, 5: 2}[size]
             for _ in range(nflows):
                 scope = Scope()
                 self.scopes.append(scope)
                 self.declare_globals(scope, self.rng.randrange(1, 3), self.rng.randrange(0, 2), self.rng.randrange(0, 2))
-                self.build_flow(scope, max(1, n_knots // nflows + self.rng.randrange(0, 2)),
-                                self.rng.randrange(0, 2), self.rng.randrange(0, 2))
+                self.build_flow(scope, per_flow + (1 if (size >= 4 and self.p(0.5)) else 0),
+                                1 if self.p(0.3) else 0, 1 if self.p(0.3) else 0)
                 self.flow_entries.append(scope.nodes[0])
             self.prog.root = [Text(["Root", "line."]), Divert("DONE")]
             return
@@ -1488,8 +1517,10 @@ class Gen:
             self.declare_lists(scope)
         if f["externals"]:
             self.declare_externals(scope)
-        n_fns = self.rng.randrange(1, 2 + size // 2) + (3 + size // 2 if f["fn_heavy"] else 0)
-        n_tunnels = self.rng.randrange(0, 2 + size // 2)
+        n_fns = self.rng.randrange(0, 2 + size // 2) + (2 + size // 2 if f["fn_heavy"] else 0)
+        if f["externals"] or f["lists"]:
+            n_fns = min(n_fns, 1)
+        n_tunnels = self.rng.randrange(0, 2 + size // 3)
         if f["fn_heavy"] or f["lists"]:
             n_knots = max(2, n_knots - 1)
         main = self.build_flow(scope, n_knots, n_fns, n_tunnels)
@@ -1692,9 +1723,24 @@ CONSTRUCTS = [
     ("hostile_tab", r"\w\t\w"),
     ("hostile_non_ascii", r"[\u0080-￿]"),
     ("hostile_non_bmp", r"[\U00010000-\U0010ffff]"),
-    ("hostile_lead_space", r"(?m)^ +[A-Z]\w+ [^\n]*$"),
+    ("hostile_lead_space", r"(?m)^(?: {1,3}| {5,7}| {9,11})[A-Z]\w+ [^\n]*$"),
     ("hostile_trail_space", r"(?m)[^\s][ \t]+$"),
 ]
+
+
+def _applies(name, profile):
+    """profile-specific constructs are only counted where they are meant to appear"""
+    if name.startswith(("list_", "LIST_")):
+        return profile.startswith("lists") and (name != "LIST_RANDOM" or profile == "lists_random")
+    if name.startswith(("ext_", "EXTERNAL")):
+        return profile == "externals"
+    if name.startswith("hostile_"):
+        return profile == "hostile_text"
+    if name.startswith("fault_"):
+        return profile == "errors"
+    if name in ("RANDOM", "SEED_RANDOM", "seq_shuffle", "shuffle_block"):
+        return profile == "random"
+    return True
 
 
 def selftest(n=50, size=3, out=sys.stdout):
@@ -1715,6 +1761,8 @@ def selftest(n=50, size=3, out=sys.stdout):
                 assert id_re.match(nm) and nm not in KEYWORDS, ("bad name", nm)
             lines += src.count("\n")
             for name, rx in CONSTRUCTS:
+                if not _applies(name, profile):
+                    continue
                 k = len(re.findall(rx, src))
                 if k:
                     c = counts.setdefault(name, [0, 0])
